@@ -44,9 +44,17 @@ def failure_detection(ctx, prog):
     c08.eof_before_closeok(ctx, prog)
     v17 = []
     c17.process_timers(ctx, prog, v17)
-    if v17:
-        test, exp_desc = c17.hb_replay('timers')
-        ctx.report('heartbeat-timers', f"heartbeat expiry: solver counterexample {str(v17[0])[:300]}; native timing scenario: {exp_desc}", {'cex': str(v17[0])[:600]}, test, inject_into='src/io_loop/mod.rs', profiles=('dev',))
+    c17.activity(ctx, prog, v17)     # only inbound bytes count as a sign of life from the server (the client's own writes do not)
+    for what in sorted({x[0] for x in v17}):
+        test, exp_desc = c17.hb_replay(what)
+        first = [x for x in v17 if x[0] == what][0]
+        if test is not None:
+            ctx.report(f'heartbeat-{what}', f"heartbeats ({what}): solver counterexample {str(first)[:300]}; native timing scenario: {exp_desc}", {'cex': str(first)[:600]}, test, inject_into='src/io_loop/mod.rs', profiles=('dev',))
+        else:
+            ctx.inconclusive.append(f"C05 heartbeat counterexample without native replay: {first}")
+    # a client exception ends the connection with ClientException (its Close goes out): further server frames do not turn it into another error
+    import c07
+    c07.exception_then_frame(ctx, prog)
 
 
 def first_error(ctx, prog, viol):
